@@ -535,6 +535,22 @@ func (w *world) run(k *Case) (line, impl, specImpl, specWant string, ok bool) {
 	if method != "none" && !accepted {
 		specWant = "nocert"
 	}
+	// fourth clause: "any other request is answered with a signed failure reply": a request that
+	// reaches the challenge check (routed PKI operation, parsable, decryptable with the selected
+	// decrypter, valid CSR of a CSR type) and is refused must get the FAILURE CertRep, not a bare error
+	csrType := f.MTok && (f.MT == "19" || f.MT == "17" || f.MT == "18")
+	decSel := false
+	switch ps.Dec {
+	case "both":
+		decSel = f.DecP
+	case "":
+		decSel = w.ca.kind == "" && f.DecD
+	}
+	std := sh.lookup == "scep" && sh.op == "pki" && sh.qok && sh.path != "root" && (sh.meth == "get" || sh.meth == "post")
+	reaches := std && httpOK && f.P7 && f.TID && csrType && f.SN == "ok" && f.Inner && decSel && f.Env == "csr"
+	if reaches && !accepted && !crashed && !gotCert && r.kind != "fail" {
+		specImpl, specWant = "nocert:noreply", "nocert"
+	}
 	if crashed {
 		specWant = "nocrash"
 	}
